@@ -80,6 +80,8 @@ VALID = [
                                "enum ZqLocal { A, B }\nconst ZqLocal zql = ZqLocal.B\nconst i32 zqe = zqd"), None),
     ("v_typedef_chain", _append("typedef i32 ZqT1\ntypedef ZqT3 ZqT4\ntypedef ZqT2 ZqT3\ntypedef ZqT1 ZqT2\n"
                                 "typedef map<string, list<ZqT4>> ZqT5\nstruct ZqUses { 1: ZqT5 a, 2: ZqT4 b }"), None),
+    # no cycle: a file including a different file of the same name (known finding C11-K14: rejected)
+    ("v_include_same_name_other_dir", _same_name_other_dir, None),
     ("v_same_ids_other_structs", _append("struct ZqP { 1: i32 a }\nstruct ZqQ { 1: i32 a }\n"
                                          "service ZqTwo { void f(1: i32 a) void g(1: i32 a) }"), None),
 ]
@@ -155,7 +157,6 @@ INVALID = [
     ("include_cycle", _include_cycle, r"Circular include: \["),
     ("include_self", lambda rng, files, victim: files.__setitem__(victim, 'include "%s"\n' % os.path.basename(victim) + files[victim]),
      r"Circular include: \["),
-    ("include_same_name_other_dir", _same_name_other_dir, r"Circular include: \["),
     ("include_missing", _append('include "zqnothere.frugal"'), r"open .*zqnothere\.frugal: no such file or directory$"),
     ("include_bad_ext", _append('include "zqx.txt"'), r"Bad include name: zqx\.txt$"),
     ("include_dup", _with_far('include "zqinc.frugal"'), r"Duplicate include: zqinc$"),
@@ -231,7 +232,7 @@ def make_case(rng, idx, quota):
     fn(rng, files, victim)
     # a second, independent valid addition now and then (more services / typedefs around the defect)
     if rng.random() < 0.3:
-        n2, f2, _ = rng.choice([VALID[0], VALID[2], VALID[4], VALID[5]])
+        n2, f2, _ = rng.choice([VALID[0], VALID[2], VALID[4], VALID[6]])
         if n2 != name:
             f2(rng, files, victim)
     return {"files": files, "main": main, "mutation": name, "expect": expect, "victim": victim}
@@ -415,7 +416,10 @@ def run(ctx, quick):
         exp = c["expect"]
         if exp is None and not ok:
             viol += 1
-            ctx.violation("C11 oracle: valid program (%s) rejected: %s" % (c["mutation"], err[:300]), rep)
+            sig = None
+            if c["mutation"] == "v_include_same_name_other_dir" and re.search(r"Circular include: \[", err):
+                sig = {"class": "valid_rejected", "kind": "include_same_name_other_dir"}
+            ctx.violation("C11 oracle: valid program (%s) rejected: %s" % (c["mutation"], err[:300]), rep, signature=sig)
         elif exp == "CONST":
             if ok:
                 viol += 1
